@@ -254,6 +254,10 @@ where
 {
     /// Checks that the settings are valid
     pub fn validate(&self) -> Result<(), String> {
+        if !self.direct_kkt_solver {
+            return Err("Indirect and other solve strategies not yet supported.".to_string());
+        }
+
         validate_direct_solve_method(&self.direct_solve_method)?;
 
         // check that the chordal decomposition merge method is valid
